@@ -1153,11 +1153,57 @@ def gen_scales(record: dict) -> str:
     out.append("end DV.Gen\n")
     return "\n".join(out)
 
+
+# ----------------------------------------------------------------------------------------
+# residual of the refinement (C05): `img = vmin + vrng * render; return img - data`
+# ----------------------------------------------------------------------------------------
+
+
+def gen_residual(record: dict) -> str:
+    IA = "droplets/image_analysis.py"
+    out = [
+        "/- GENERATED by tools/py2lean.py from droplets/image_analysis.py (refine_droplet._image_deviation) — do not edit. -/",
+        "import DropletsVerif.Num",
+        "namespace DV.Gen",
+        "open DV",
+        "",
+    ]
+    fd = find_def(module_tree(IA), "refine_droplet")
+    inner = [n for n in ast.walk(fd) if isinstance(n, ast.FunctionDef) and n.name == "_image_deviation"]
+    names = ["residual_fitted_levels", "residual_fixed_levels"]
+    try:
+        if len(inner) != 2:
+            raise Untranslatable(f"expected two _image_deviation closures, found {len(inner)}")
+        for name, f in zip(names, inner):
+            img = [n.value for n in ast.walk(f) if isinstance(n, ast.Assign) and dotted(n.targets[0]) == "img"]
+            ret = [n.value for n in ast.walk(f) if isinstance(n, ast.Return)]
+            if len(img) != 1 or len(ret) != 1:
+                raise Untranslatable("img / return statements of _image_deviation")
+            # droplet._get_phase_field(phase_field.grid)[mask]  ->  render ;  data_mask -> data
+            class R(ast.NodeTransformer):
+                def visit_Subscript(self, n):
+                    if isinstance(n.value, ast.Call) and dotted(n.value.func) == "droplet._get_phase_field":
+                        return ast.Name(id="render", ctx=ast.Load())
+                    return self.generic_visit(n)
+            e_img = R().visit(img[0])
+            ctx = Ctx({"vmin": ("vmin", "num"), "vrng": ("vrng", "num"), "render": ("render", "num"), "data_mask": ("data", "num")})
+            v = expr(e_img, ctx)
+            ctx.names["img"] = ("img", "num")
+            body = f"let img := {v}; {expr(ret[0], ctx)}"
+            record[name] = {"source": f"{IA}:refine_droplet._image_deviation", "ast_sha": ast_hash(f), "status": "ok"}
+            out.append(f"def {name} {{α : Type}} [DNum α] (vmin vrng render data : α) : α :=\n  {body}\n")
+    except Untranslatable as e:
+        for name in names:
+            record[name] = {"source": f"{IA}:refine_droplet._image_deviation", "status": "untranslated", "why": str(e)}
+            out.append(f"/- UNTRANSLATED: {e} -/\ndef {name} {{α : Type}} [DNum α] (vmin vrng render data : α) : α :=\n  DNum.untranslated\n")
+    out.append("end DV.Gen\n")
+    return "\n".join(out)
+
 # ----------------------------------------------------------------------------------------
 # driver
 # ----------------------------------------------------------------------------------------
 
-GENERATORS = {"Spherical": gen_spherical, "Merge": gen_merge, "Profile": gen_profile, "Perturbed": gen_perturbed, "Scales": gen_scales}
+GENERATORS = {"Spherical": gen_spherical, "Merge": gen_merge, "Profile": gen_profile, "Perturbed": gen_perturbed, "Scales": gen_scales, "Residual": gen_residual}
 
 
 def write_if_changed(path: Path, text: str) -> bool:
